@@ -28,11 +28,13 @@ type c18Model struct {
 	NameOwner string                         // principal bob.jkl resolves to, per the harness' record of transfers
 	Inbox     map[string]map[string][]string // principal -> "from|time" -> contents sent under that identity, in order
 	Blocked   map[string]map[string]bool     // principal -> blocked principal
+	Restarted bool                           // the module was restarted from its exported genesis
+	Stale     []string                       // "blocker>blocked" pairs whose block predates the restart
 }
 
 func (m c18Model) Key() []byte { return jkey(m) }
 func (m c18Model) clone() c18Model {
-	n := c18Model{Blocks: m.Blocks, NameOwner: m.NameOwner, Inbox: map[string]map[string][]string{}, Blocked: map[string]map[string]bool{}}
+	n := c18Model{Blocks: m.Blocks, NameOwner: m.NameOwner, Inbox: map[string]map[string][]string{}, Blocked: map[string]map[string]bool{}, Restarted: m.Restarted, Stale: append([]string{}, m.Stale...)}
 	for a, in := range m.Inbox {
 		n.Inbox[a] = map[string][]string{}
 		for k, v := range in {
@@ -123,6 +125,14 @@ func (C18) Events(env world.Env, mm mc.Model) []string {
 	if m.Blocks < 3 {
 		add("NextBlock")
 	}
+	if !m.Restarted {
+		for _, x := range c18Who {
+			if len(m.Inbox[x]) > 0 || len(m.Blocked[x]) > 0 {
+				add("Restart") // the module restarts from its own exported genesis
+				break
+			}
+		}
+	}
 	return evs
 }
 
@@ -166,7 +176,11 @@ func (C18) Apply(env world.Env, mm mc.Model, ev string) mc.Step {
 			st.Exercised = append(st.Exercised, "send-while-blocked")
 		}
 		if res.OK() != expect {
-			vs = append(vs, viol("blocked-sender-cannot-deliver", fmt.Sprintf("accepted=%v blocked=%v", res.OK(), !expect), "%s: err=%v", ev, res.Err))
+			sig := fmt.Sprintf("accepted=%v blocked=%v", res.OK(), !expect)
+			if res.OK() && has(m.Stale, to+">"+sender) {
+				sig += " block-predates-a-restart"
+			}
+			vs = append(vs, viol("blocked-sender-cannot-deliver", sig, "%s: err=%v", ev, res.Err))
 		}
 		if res.OK() {
 			st.Outcome = "ok"
@@ -189,6 +203,7 @@ func (C18) Apply(env world.Env, mm mc.Model, ev string) mc.Step {
 			st.Outcome = "ok"
 			for _, t := range strings.Split(p[2], "+") {
 				m.Blocked[p[1]][resolve(t)] = true
+				m.Stale = setDiff(m.Stale, []string{p[1] + ">" + resolve(t)}) // blocked again after the restart
 			}
 		} else {
 			vs = append(vs, viol("block-accepted", "rejected", "%s: err=%v", ev, res.Err))
@@ -218,6 +233,19 @@ func (C18) Apply(env world.Env, mm mc.Model, ev string) mc.Step {
 				}
 			}
 		}
+	case "Restart":
+		if err := restartModule(env, "notifications"); err != nil {
+			vs = append(vs, viol("inbox-lists-exactly-what-was-sent", "restart-failed", "export -> import of the notifications module failed: %v", err))
+		}
+		m.Restarted = true
+		st.Outcome = "ok"
+		st.Exercised = append(st.Exercised, "restart")
+		for _, x := range c18Who {
+			for y := range m.Blocked[x] {
+				m.Stale = append(m.Stale, x+">"+y)
+			}
+		}
+		sort.Strings(m.Stale)
 	case "TransferName":
 		res := env.Deliver(rnstypes.NewMsgTransfer(w.A(p[1]).Bech, c18Name, w.A(p[2]).Bech))
 		if res.OK() != (p[1] == m.NameOwner) {
@@ -303,7 +331,7 @@ func setDiff(a, b []string) []string {
 func init() {
 	regScenario(C18{})
 	Props["C18"] = Prop{Level: "model_checking", Run: func(r *mc.Run, tier string) {
-		r.Rules = append(r.Rules, "BFS over create (3 senders x {A,B,C,bob.jkl} x 2 contents), delete of every existing (from,time) identity by every principal incl. crafted '/'-containing senders, block-senders (address, name, list), transfer of the name, NextBlock; after every event every inbox is read through AllNotificationsByAddress and compared entry by entry with a reference inbox")
+		r.Rules = append(r.Rules, "BFS over create (3 senders x {A,B,C,bob.jkl} x 2 contents), delete of every existing (from,time) identity by every principal incl. crafted '/'-containing senders, block-senders (address, name, list), transfer of the name, NextBlock, one restart of the module from its own exported genesis; after every event every inbox is read through AllNotificationsByAddress and compared entry by entry with a reference inbox")
 		r.Assumptions = append(r.Assumptions, "identity of a notification is (recipient, sender, time): a second send with identical identity replaces the entry (not enforced as a violation)", "3 principals, 1 name, <=3 block boundaries")
 		r.AddExplore(C18{}, opts(tier, 4, 6, 70, 1500, 200, 3000))
 	}}
